@@ -4,7 +4,7 @@ From TS Require Import Model.Str Model.Outcome Model.Unicode Model.Types Model.P
                        Model.Lang.TypeScript Model.Lang.Kotlin Model.Lang.Scala Model.Lang.Go Spec.C09Spec.
 From TS Require Import Model.Lang.Swift Model.Lang.Python.
 From TS Require Proofs.C09Common Proofs.C09Recon Proofs.C09Refs Proofs.C09_KotlinFile Proofs.C09Witness Proofs.C09Final.
-From TS Require Proofs.C09_TypeScript Proofs.C09_Scala Proofs.C09_Python Proofs.C09_Swift Proofs.C09_Go.
+From TS Require Proofs.C09_TypeScript Proofs.C09_Scala Proofs.C09_Python Proofs.C09_Swift Proofs.C09_Go Proofs.GoAcronyms Proofs.C09_GoAcr.
 Import ListNotations.
 
 (* the program the back ends receive in single-file mode is Proofs.C09Recon.c09_reconciled of the parsed one *)
@@ -35,8 +35,10 @@ Print Assumptions C09_reconciled_mentions.
    reconciled name of a mentioned item, the sealed parent or the helper struct (c09_shape) satisfies
    the judgement outside the recorded classes.  That *_file_decls HAS this shape is proved for Kotlin,
    TypeScript, Scala, Python and Swift in every configuration (C09_Kotlin .. C09_Swift below) and for Go
-   with an empty uppercase_acronyms list (C09_Go_partial).  PARTIAL (hence the name): for Go with a
-   non-empty acronym list the shape is validated by the correspondence check on every run, not proved.
+   with an empty uppercase_acronyms list (C09_Go_partial); Go with a non-empty acronym list declares and
+   spells CONVERTED names, a different shape with a language-level theorem of its own (C09_Go_shape_good)
+   that go_file_decls is proved to have for every alphanumeric acronym list (C09_Go).  (The name keeps its
+   historical _partial suffix; nothing is missing any more.)
    A back end declares the <Enum><Variant>Inner entities only if c09_has_inner (all but TypeScript,
    which inlines struct variants); the shape asks for the definitions of the declared entities only. *)
 Theorem C09_all_languages_partial :
@@ -160,10 +162,8 @@ Print Assumptions C09_no_rename_Swift.
    the recorded classes every name spelled in a type position (field types, variant content types, alias
    targets, const types, the ...Inner helper struct, generic arguments) is a generic parameter of the item
    it stands in or exactly the name a generated definition is declared under.
-   PARTIAL: with a non-empty acronym list acronyms_to_uppercase rewrites definition names and member /
-   payload types on the printed text (go.rs:579, byte/char arithmetic) but not alias targets and const
-   types; that configuration is judged by the correspondence check on every run (class
-   C09-go-acronym-target), not by a theorem. *)
+   PARTIAL only in its acronym hypothesis: non-empty (alphanumeric) acronym lists are C09_Go below; this
+   statement remains as the one that needs no ASCII hypothesis on the program. *)
 Theorem C09_Go_partial :
   forall (uc : unicode) (cfg : go_config) (pd : parsed),
     go_uppercase_acronyms cfg = [] ->
@@ -182,6 +182,74 @@ Theorem C09_no_rename_Go_partial :
       good_C09 Go [] pd (c09_observe Go fd) = true.
 Proof. exact Proofs.C09Final.c09_no_rename_go_no_acronyms. Qed.
 Print Assumptions C09_no_rename_Go_partial.
+
+(* ---- Go under EVERY alphanumeric uppercase_acronyms list ----
+   acronyms_to_uppercase (go.rs:579) rewrites the names of definitions and the printed types of fields and payloads,
+   but not alias targets and const types, and not the generic parameter list of a struct.  Spec/C09Spec.v reads it as
+   c09_acr_conv (PascalCase form of each acronym - id, Id, ID all give Id -, leftmost non-overlapping occurrences in
+   the ORIGINAL name not followed by a lower-case letter are upper-cased). *)
+
+(* the Spec's conversion IS the model's (the real code's) on ASCII input, where it never panics *)
+Theorem C09_go_conv_is_model :
+  forall (uc : unicode), unicode_ok uc -> forall (acrs : list str) (name : str),
+    forallb (forallb is_ascii) acrs = true -> forallb is_ascii name = true ->
+    go_convert_acronyms_to_uppercase uc acrs name = Ok (c09_acr_conv acrs name).
+Proof. exact Proofs.C09_GoAcr.c09_conv_is_model. Qed.
+Print Assumptions C09_go_conv_is_model.
+
+(* it only changes the ASCII case of letters: a converted name is linked to the same item (c09_name_eqb Go) *)
+Theorem C09_go_conv_case_only :
+  forall (acrs : list str) (s : str), c09_name_eqb Go (c09_acr_conv acrs s) s = true.
+Proof. exact Proofs.C09_GoAcr.c09_conv_name_eqb. Qed.
+Print Assumptions C09_go_conv_case_only.
+
+(* language-level half for Go with acronyms (every acronym list, no ASCII hypothesis): an observation in which
+   every definition is declared under the CONVERTED table name (two passes for the <Enum><Variant>Inner helper:
+   c09_go_dn), every name mentioned in a field / payload is the converted name of a generic parameter of the owner
+   or of the mentioned item, every name mentioned in an alias target / const type the unconverted one (c09_go_rw),
+   and the helper is referred to as conv (conv (Enum ++ conv Variant ++ Inner)) (c09_go_shape) satisfies the
+   judgement outside the recorded classes: C09-go-acronym-target (the conversion changes the definition name of an
+   item an alias target / const type mentions), C09-go-acronym-generic (it changes a generic parameter a field /
+   payload mentions), C09-go-acronym-inner (the extra pass at the helper's use changes the name), and the rename
+   classes of the other theorems *)
+Theorem C09_Go_shape_good :
+  forall (acrs : list str) (pd : parsed) (obs : c09_obs),
+    dom_C09 Go [] pd = true -> known_C09 Go [] acrs pd = None ->
+    Proofs.C09_GoAcr.c09_go_shape acrs pd obs -> good_C09 Go [] pd obs = true.
+Proof. exact Proofs.C09_GoAcr.c09_go_shape_good_all. Qed.
+Print Assumptions C09_Go_shape_good.
+
+(* Go, every program, package, type-mapping and no_pointer_slice configuration, EVERY alphanumeric
+   uppercase_acronyms list ([A-Za-z0-9]*: what an acronym is; ga_alnum), on an ASCII program (c09_go_ascii: the
+   type_mappings values, the names of the typeshared items and of the struct variants with a helper struct, and
+   the type names mentioned in type positions; a Unicode table agreeing with ASCII below 128): outside the
+   recorded classes every name spelled in a type position (field types, variant content types, alias targets, const
+   types, the ...Inner helper struct, generic arguments) is a generic parameter of the item it stands in, verbatim,
+   or exactly the - acronym-converted - name a generated definition is declared under.
+   Outside the hypotheses (a non-alphanumeric acronym could straddle `]` or `*` of a printed type; on non-ASCII text
+   the byte and char offsets of go.rs:579 drift apart, C07) the conversion has no closed form and nothing is claimed. *)
+Theorem C09_Go :
+  forall (uc : unicode), unicode_ok uc ->
+  forall (cfg : go_config) (pd : parsed),
+    forallb (forallb Proofs.GoAcronyms.ga_alnum) (go_uppercase_acronyms cfg) = true ->
+    Proofs.C09_GoAcr.c09_go_ascii cfg pd = true ->
+    dom_C09 Go [] pd = true -> known_C09 Go [] (go_uppercase_acronyms cfg) pd = None ->
+    forall fd : file_decls, go_file_decls uc cfg (Proofs.C09Recon.c09_reconciled pd) = Ok fd ->
+      good_C09 Go [] pd (c09_observe Go fd) = true.
+Proof. exact Proofs.C09_GoAcr.c09_go_all. Qed.
+Print Assumptions C09_Go.
+
+(* its hypotheses are satisfiable on a program whose names the conversion really rewrites, consistently:
+   struct UserId; struct Holder<T> { u: Vec<UserId>, t: T, e: ApiEvent }; enum ApiEvent { V1 { a: UserId },
+   V2(Option<UserId>) } under [ID, api] declares UserID, APIEvent, APIEventV1Inner, Holder; >= 4 references; good *)
+Theorem C09_Go_nonvacuous_acronyms :
+  forallb (forallb Proofs.GoAcronyms.ga_alnum) Proofs.C09Witness.w_acr_list = true /\
+  Proofs.C09_GoAcr.c09_go_ascii (Proofs.C09Witness.w_go Proofs.C09Witness.w_acr_list) Proofs.C09Witness.w_acr_clean = true /\
+  Proofs.C09Witness.c09_nonvacuous_go Proofs.C09Witness.w_acr_list Proofs.C09Witness.w_acr_clean
+    (go_file_decls uc_exec (Proofs.C09Witness.w_go Proofs.C09Witness.w_acr_list) (Proofs.C09Recon.c09_reconciled Proofs.C09Witness.w_acr_clean))
+    [lit "UserID"; lit "APIEvent"; lit "APIEventV1Inner"; lit "Holder"] = true.
+Proof. exact Proofs.C09_GoAcr.c09_go_all_nonvacuous. Qed.
+Print Assumptions C09_Go_nonvacuous_acronyms.
 
 (* nothing renamed => no recorded class applies, all languages (with an empty Go acronym list) *)
 Theorem C09_no_rename_no_class :
@@ -274,6 +342,15 @@ Theorem C09_go_acronym_inner_refuted :
     "C09-go-acronym-inner" = true.
 Proof. exact Proofs.C09Witness.c09_go_acronym_inner_refuted. Qed.
 Print Assumptions C09_go_acronym_inner_refuted.
+
+(* a generic parameter is declared unconverted (`type Foo[TId any] struct`) and converted where a field mentions it
+   (`X TID`): struct Foo<TId> { x: TId, v: Vec<UserId> } under uppercase_acronyms = [ID] *)
+Theorem C09_go_acronym_generic_refuted :
+  Proofs.C09Witness.c09_witness Go [] [lit "ID"] Proofs.C09Witness.w_prog_gen
+    (go_file_decls uc_exec (Proofs.C09Witness.w_go [lit "ID"]) (Proofs.C09Recon.c09_reconciled Proofs.C09Witness.w_prog_gen))
+    "C09-go-acronym-generic" = true.
+Proof. exact Proofs.C09Witness.c09_go_acronym_generic_refuted. Qed.
+Print Assumptions C09_go_acronym_generic_refuted.
 
 (* the hypotheses of C09_Kotlin are satisfiable on a non-trivial program (mutual references, generic
    struct, tagged enum with a struct variant, alias, one renamed struct, prefix KP) *)
